@@ -91,7 +91,7 @@ theorem scan_spec (drift : Nat) (da : Nat → Fetch) (max lastDA fuel next size 
       · split
         · simp [bytesOf]
         · exact ih _ _ _
-        · exact ih _ _ _
+        · simp [bytesOf]
         · rename_i items hts _
           split
           · exact ih _ _ _
@@ -107,79 +107,193 @@ end Based
 
 namespace Based
 
-/-- DA order, as a specification independent of the scan loop: the items of `n` consecutive
-heights from `lo`, by height then position (heights that do not answer `ok` contribute nothing) -/
-def daItems (da : Nat → Fetch) (lo : Nat) : Nat → List Item
+theorem scanQ_spec (q : List Entry) (drift : Nat) (da : Nat → Fetch) (max lastDA fuel next size ts : Nat) :
+    (scanQ q drift da max lastDA fuel next size ts).size = size + bytesOf (scanQ q drift da max lastDA fuel next size ts).taken ∧
+    (size ≤ max → (scanQ q drift da max lastDA fuel next size ts).size ≤ max) := by
+  unfold scanQ
+  split
+  · exact scan_spec ..
+  · simp [bytesOf]
+
+/-! ## DA order as a specification independent of the scan loop -/
+
+/-- what the DA layer holds: the (immutable) content of every height, in position order -/
+abbrev Content := Nat → List Item
+
+/-- the DA stream: the items of `n` consecutive heights from `lo`, by height then position -/
+def stream (c : Content) (lo : Nat) : Nat → List Item
   | 0 => []
-  | n+1 => (match da lo with | .ok items _ => items | _ => []) ++ daItems da (lo+1) n
+  | n+1 => c lo ++ stream c (lo+1) n
+
+/-- one call's view of the DA layer is consistent with its content: a height answers with its
+content, or as empty when it has none, or with a retrieval error, or as not yet reached -/
+def Answers (c : Content) (da : Nat → Fetch) : Prop :=
+  ∀ h, match da h with
+    | .ok items _ => items = c h
+    | .empty => c h = []
+    | .future => True
+    | .error => True
+
+/-- the content a fixed answer function shows -/
+def contentOf (da : Nat → Fetch) : Content := fun h =>
+  match da h with
+  | .ok items _ => items
+  | _ => []
+
+theorem answers_contentOf (da : Nat → Fetch) : Answers (contentOf da) da := by
+  intro h
+  unfold contentOf
+  split <;> simp_all
 
 def pushedItems : Option Entry → List Item
   | some e => e.items
   | none => []
 
-/-- one scan releases/pushes back exactly the DA-ordered content of the heights it consumed -/
-theorem scan_da_order (drift : Nat) (da : Nat → Fetch) (max lastDA fuel next size ts : Nat) :
+theorem stream_add (c : Content) (lo a b : Nat) :
+    stream c lo (a + b) = stream c lo a ++ stream c (lo + a) b := by
+  induction a generalizing lo with
+  | zero => simp [stream]
+  | succ a ih =>
+    have e : a + 1 + b = (a + b) + 1 := by omega
+    rw [e]
+    simp only [stream, List.append_assoc]
+    rw [ih]
+    have e2 : lo + 1 + a = lo + (a + 1) := by omega
+    rw [e2]
+
+theorem mem_stream (c : Content) (lo n : Nat) (it : Item) :
+    it ∈ stream c lo n ↔ ∃ h, lo ≤ h ∧ h < lo + n ∧ it ∈ c h := by
+  induction n generalizing lo with
+  | zero => simp only [stream, List.not_mem_nil, false_iff]; rintro ⟨h, h1, h2, _⟩; omega
+  | succ n ih =>
+    simp only [stream, List.mem_append, ih]
+    constructor
+    · rintro (h | ⟨h, h1, h2, h3⟩)
+      · exact ⟨lo, by omega, by omega, h⟩
+      · exact ⟨h, by omega, by omega, h3⟩
+    · rintro ⟨h, h1, h2, h3⟩
+      by_cases e : h = lo
+      · left; rw [← e]; exact h3
+      · right; exact ⟨h, by omega, by omega, h3⟩
+
+/-- one scan releases / pushes back exactly the DA-ordered content of the `n` heights it consumed,
+and its new position is exactly past them (also after a push-back) -/
+theorem scan_stream (c : Content) (da : Nat → Fetch) (hA : Answers c da) (drift max lastDA fuel next size ts : Nat) :
     ∃ n, (scan drift da max lastDA fuel next size ts).taken ++ pushedItems (scan drift da max lastDA fuel next size ts).pushed
-          = daItems da next n ∧
-      ((scan drift da max lastDA fuel next size ts).pushed = none → (scan drift da max lastDA fuel next size ts).next = next + n) ∧
-      ((scan drift da max lastDA fuel next size ts).pushed ≠ none → (scan drift da max lastDA fuel next size ts).next + 1 = next + n) := by
+          = stream c next n ∧
+      (scan drift da max lastDA fuel next size ts).next = next + n := by
   induction fuel generalizing next size ts with
-  | zero => exact ⟨0, by simp [scan, daItems, pushedItems]⟩
+  | zero => exact ⟨0, by simp [scan, stream, pushedItems]⟩
   | succ fuel ih =>
     simp only [scan]
     split
-    · exact ⟨0, by simp [daItems, pushedItems]⟩
+    · exact ⟨0, by simp [stream, pushedItems]⟩
     · split
-      · exact ⟨0, by simp [daItems, pushedItems]⟩
-      · split
-        · exact ⟨0, by simp [daItems, pushedItems]⟩
+      · exact ⟨0, by simp [stream, pushedItems]⟩
+      · have hh := hA next
+        split
+        · exact ⟨0, by simp [stream, pushedItems]⟩
         · rename_i hda
-          obtain ⟨n, h1, h2, h3⟩ := ih (next+1) size ts
-          refine ⟨n+1, ?_, ?_, ?_⟩
-          · simp only [daItems, hda, List.nil_append]; exact h1
-          · intro h; have := h2 h; omega
-          · intro h; have := h3 h; omega
-        · rename_i hda
-          obtain ⟨n, h1, h2, h3⟩ := ih (next+1) size ts
-          refine ⟨n+1, ?_, ?_, ?_⟩
-          · simp only [daItems, hda, List.nil_append]; exact h1
-          · intro h; have := h2 h; omega
-          · intro h; have := h3 h; omega
+          rw [hda] at hh
+          obtain ⟨n, h1, h2⟩ := ih (next+1) size ts
+          refine ⟨n+1, ?_, ?_⟩
+          · simp only [stream, hh, List.nil_append]; exact h1
+          · omega
+        · exact ⟨0, by simp [stream, pushedItems]⟩
         · rename_i items hts hda
+          rw [hda] at hh
+          simp only at hh
           split
           · rename_i hemp
             have he : items = [] := by simpa using hemp
-            obtain ⟨n, h1, h2, h3⟩ := ih (next+1) size ts
-            refine ⟨n+1, ?_, ?_, ?_⟩
-            · simp only [daItems, hda, he, List.nil_append]; exact h1
-            · intro h; have := h2 h; omega
-            · intro h; have := h3 h; omega
+            obtain ⟨n, h1, h2⟩ := ih (next+1) size ts
+            refine ⟨n+1, ?_, ?_⟩
+            · simp only [stream, ← hh, he, List.nil_append]; exact h1
+            · omega
           · have hp := scanItems_spec max items size
             split
             · rename_i hrest
               have hr : (scanItems max items size).2.2 = [] := by simpa using hrest
               rw [hr, List.append_nil] at hp
-              obtain ⟨n, h1, h2, h3⟩ := ih (next+1) (scanItems max items size).2.1 hts
-              refine ⟨n+1, ?_, ?_, ?_⟩
-              · simp only [daItems, hda, List.append_assoc, hp.1]; rw [h1]
-              · intro h; have := h2 h; simp only at this ⊢; omega
-              · intro h; have := h3 h; simp only at this ⊢; omega
-            · refine ⟨1, ?_, ?_, ?_⟩
-              · simp [daItems, hda, pushedItems, hp.1]
-              · intro h; simp at h
-              · intro _; rfl
+              obtain ⟨n, h1, h2⟩ := ih (next+1) (scanItems max items size).2.1 hts
+              refine ⟨n+1, ?_, ?_⟩
+              · simp only [stream, ← hh, List.append_assoc]; rw [h1, hp.1]
+              · simp only at h2 ⊢; omega
+            · refine ⟨1, ?_, ?_⟩
+              · simp [stream, ← hh, pushedItems, hp.1]
+              · rfl
 
-theorem daItems_add (da : Nat → Fetch) (lo a b : Nat) :
-    daItems da lo (a + b) = daItems da lo a ++ daItems da (lo + a) b := by
-  induction a generalizing lo with
-  | zero => simp [daItems]
-  | succ a ih =>
-    have e : a + 1 + b = (a + b) + 1 := by omega
-    rw [e]
-    simp only [daItems, List.append_assoc]
-    rw [ih]
-    have e2 : lo + 1 + a = lo + (a + 1) := by omega
-    rw [e2]
+/-- the scan position never moves backwards … -/
+theorem scan_next_ge (drift : Nat) (da : Nat → Fetch) (max lastDA fuel next size ts : Nat) :
+    next ≤ (scan drift da max lastDA fuel next size ts).next := by
+  induction fuel generalizing next size ts with
+  | zero => simp [scan]
+  | succ fuel ih =>
+    simp only [scan]
+    split
+    · simp
+    · split
+      · simp
+      · split
+        · simp
+        · have := ih (next+1) size ts; omega
+        · simp
+        · split
+          · have := ih (next+1) size ts; omega
+          · split
+            · rename_i items hts _ _ _
+              have := ih (next+1) (scanItems max items size).2.1 hts; simp only at this ⊢; omega
+            · simp
+
+/-- … and never moves past a height whose retrieval failed or which the DA has not reached -/
+theorem scan_stops_at (drift : Nat) (da : Nat → Fetch) (max lastDA fuel next size ts h : Nat)
+    (hb : da h = .error ∨ da h = .future) (hn : next ≤ h) :
+    (scan drift da max lastDA fuel next size ts).next ≤ h := by
+  induction fuel generalizing next size ts with
+  | zero => simpa [scan] using hn
+  | succ fuel ih =>
+    simp only [scan]
+    have hne : ∀ {x}, da next = x → x ≠ .error → x ≠ .future → next + 1 ≤ h := by
+      intro x hx h1 h2
+      have : next ≠ h := by
+        rintro rfl
+        rcases hb with hb | hb <;> rw [hb] at hx <;> simp_all
+      omega
+    split
+    · exact hn
+    · split
+      · exact hn
+      · split
+        · exact hn
+        · rename_i hda
+          exact ih _ _ _ (hne hda (by simp) (by simp))
+        · exact hn
+        · rename_i items hts hda
+          have := hne hda (by simp) (by simp)
+          split
+          · exact ih _ _ _ this
+          · split
+            · exact ih _ _ _ this
+            · exact this
+
+/-- with room in the batch, the window open and the first height answering (with content or as
+empty), the scan consumes at least that height -/
+theorem scan_progress (drift : Nat) (da : Nat → Fetch) (max lastDA fuel next size ts : Nat)
+    (hs : size < max) (hw : next ≤ lastDA + drift) (hg : da next ≠ .error ∧ da next ≠ .future) :
+    next + 1 ≤ (scan drift da max lastDA (fuel+1) next size ts).next := by
+  simp only [scan]
+  have h1 : ¬ ¬ size < max := by omega
+  have h2 : ¬ next > lastDA + drift := by omega
+  simp only [h1, h2, if_false]
+  split
+  · simp_all
+  · exact scan_next_ge ..
+  · simp_all
+  · split
+    · exact scan_next_ge ..
+    · split
+      · exact scan_next_ge ..
+      · simp
 
 theorem daStart_le_pos (cfg : Cfg) (s : St) : cfg.daStart ≤ persistedPos cfg s := by
   unfold persistedPos; split <;> (try split) <;> omega
@@ -192,5 +306,229 @@ theorem pos_of_scanP (cfg : Cfg) (s : St) (v : Nat) (h : s.scanP = some v) (hv :
   split
   · rfl
   · omega
+
+/-! ## The carry-over pop and the head of the queue -/
+
+theorem flat_cons (e : Entry) (q : List Entry) : flat (e :: q) = e.items ++ flat q := by
+  simp [flat]
+
+/-- a head that fits is taken first -/
+theorem popQueue_head_fits (max : Nat) (q : List Entry) (ts : Nat) (y : Item) (ys : List Item)
+    (hq : flat q = y :: ys) (hy : y.tx.length ≤ max) :
+    ∃ rest, (popQueue max q 0 ts).taken = y :: rest := by
+  induction q generalizing ts with
+  | nil => simp [flat] at hq
+  | cons e q ih =>
+    rw [flat_cons] at hq
+    simp only [popQueue]
+    cases hi : e.items with
+    | nil =>
+      rw [hi, List.nil_append] at hq
+      obtain ⟨rest, hr⟩ := ih e.ts hq
+      simp [popItems, hr]
+    | cons a r =>
+      rw [hi] at hq
+      have ha : a = y := by simpa using (List.cons.inj hq).1
+      subst ha
+      have hng : ¬ (0 + a.tx.length > max) := by omega
+      simp only [popItems, hng, if_false]
+      split
+      · exact ⟨_, List.cons_append ..⟩
+      · exact ⟨_, rfl⟩
+
+/-- a head larger than the limit blocks the pop: nothing is taken, the queue keeps its content -/
+theorem popQueue_head_blocks (max : Nat) (q : List Entry) (ts : Nat) (y : Item) (ys : List Item)
+    (hq : flat q = y :: ys) (hy : max < y.tx.length) :
+    (popQueue max q 0 ts).taken = [] ∧ (popQueue max q 0 ts).queue ≠ [] ∧
+      flat (popQueue max q 0 ts).queue = flat q ∧ (popQueue max q 0 ts).size = 0 := by
+  induction q generalizing ts with
+  | nil => simp [flat] at hq
+  | cons e q ih =>
+    rw [flat_cons] at hq
+    simp only [popQueue]
+    cases hi : e.items with
+    | nil =>
+      rw [hi, List.nil_append] at hq
+      have := ih e.ts hq
+      simp [popItems, this, flat_cons, hi]
+    | cons a r =>
+      rw [hi] at hq
+      have ha : a = y := by simpa using (List.cons.inj hq).1
+      subst ha
+      have hg : 0 + a.tx.length > max := by omega
+      simp [popItems, hy, flat_cons, hi]
+
+/-- a queue without content pops to the empty queue -/
+theorem popQueue_flat_nil (max : Nat) (q : List Entry) (size ts : Nat) (hq : flat q = []) :
+    (popQueue max q size ts).taken = [] ∧ (popQueue max q size ts).queue = [] ∧
+      (popQueue max q size ts).size = size := by
+  induction q generalizing ts with
+  | nil => simp [popQueue]
+  | cons e q ih =>
+    rw [flat_cons] at hq
+    have h1 : e.items = [] := (List.append_eq_nil_iff.mp hq).1
+    have h2 : flat q = [] := (List.append_eq_nil_iff.mp hq).2
+    have := ih e.ts h2
+    simp [popQueue, h1, popItems, this]
+
+/-! ## One call -/
+
+theorem items_ite (l : List Item) (ts : Nat) :
+    (if l.isEmpty then Resp.nil else Resp.batch l ts).items = l := by
+  cases l <;> simp [Resp.items]
+
+theorem flat_pushQ (q : List Entry) (o : Option Entry) : flat (pushQ q o) = flat q ++ pushedItems o := by
+  cases o <;> simp [pushQ, pushedItems, flat]
+
+/-- the caller's echo is not ahead of the scan position (what `block.Manager` sends: the ids of a
+batch it received; every released id lies below the position) -/
+def EchoOk (cfg : Cfg) (s : St) (last : List Bytes) : Prop :=
+  ∀ id, last.getLast? = some id → ∃ e, splitHeight id = some e ∧ e ≤ persistedPos cfg s
+
+theorem echoOk_nil (cfg : Cfg) (s : St) : EchoOk cfg s [] := by
+  intro id h; simp at h
+
+/-- such an echo changes nothing: the call is the call without `LastBatchData` -/
+theorem gnb_norm (cfg : Cfg) (da : Nat → Fetch) (s : St) (r : Req) (hid : r.idOk = true)
+    (he : EchoOk cfg s r.last) :
+    getNextBatch cfg da s r = getNextBatch cfg da s { max := r.max } := by
+  cases hl : r.last.getLast? with
+  | none => simp [getNextBatch, hid, hl]
+  | some id =>
+    obtain ⟨e, h2, h3⟩ := he id hl
+    have h4 : ¬ e > persistedPos cfg s := by omega
+    simp [getNextBatch, hid, hl, h2, h4]
+
+/-- the scan of a call without echo -/
+def callScan (cfg : Cfg) (da : Nat → Fetch) (s : St) (m : Nat) : Scanned :=
+  scanQ (popQueue (effMax m) s.queue 0 0).queue cfg.drift da (effMax m) (persistedPos cfg s) (cfg.drift + 2)
+    (persistedPos cfg s) (popQueue (effMax m) s.queue 0 0).size (popQueue (effMax m) s.queue 0 0).ts
+
+theorem gnb_items (cfg : Cfg) (da : Nat → Fetch) (s : St) (m : Nat) :
+    (getNextBatch cfg da s { max := m }).resp.items =
+      (popQueue (effMax m) s.queue 0 0).taken ++ (callScan cfg da s m).taken := by
+  simp only [getNextBatch, Bool.not_true, Bool.false_eq_true, if_false, List.getLast?_nil, callScan]
+  exact items_ite _ _
+
+theorem gnb_queue (cfg : Cfg) (da : Nat → Fetch) (s : St) (m : Nat) :
+    (getNextBatch cfg da s { max := m }).st.queue =
+      pushQ (popQueue (effMax m) s.queue 0 0).queue (callScan cfg da s m).pushed := by
+  simp [getNextBatch, callScan]
+
+theorem gnb_scanP (cfg : Cfg) (da : Nat → Fetch) (s : St) (m : Nat) :
+    (getNextBatch cfg da s { max := m }).st.scanP = some (callScan cfg da s m).next := by
+  simp [getNextBatch, callScan]
+
+theorem callScan_next_ge (cfg : Cfg) (da : Nat → Fetch) (s : St) (m : Nat) :
+    persistedPos cfg s ≤ (callScan cfg da s m).next := by
+  unfold callScan scanQ
+  split
+  · exact scan_next_ge ..
+  · simp
+
+theorem gnb_pos (cfg : Cfg) (da : Nat → Fetch) (s : St) (m : Nat) :
+    persistedPos cfg (getNextBatch cfg da s { max := m }).st = (callScan cfg da s m).next := by
+  apply pos_of_scanP _ _ _ (gnb_scanP ..)
+  have := callScan_next_ge cfg da s m
+  have := daStart_le_pos cfg s
+  omega
+
+/-- **one call, as a step on the DA stream**: what it releases, followed by what it leaves in the
+carry-over, is the old carry-over followed by the content of the `n` heights it consumed from the
+scan position; the new scan position is exactly past them -/
+theorem call_stream (c : Content) (cfg : Cfg) (da : Nat → Fetch) (hA : Answers c da) (s : St) (m : Nat) :
+    ∃ n, (getNextBatch cfg da s { max := m }).resp.items ++ flat (getNextBatch cfg da s { max := m }).st.queue
+          = flat s.queue ++ stream c (persistedPos cfg s) n ∧
+      persistedPos cfg (getNextBatch cfg da s { max := m }).st = persistedPos cfg s + n := by
+  rw [gnb_items, gnb_queue, gnb_pos, flat_pushQ]
+  have hp := popQueue_flat (effMax m) s.queue 0 0
+  unfold callScan scanQ
+  split
+  · rename_i hq
+    have hq' : (popQueue (effMax m) s.queue 0 0).queue = [] := by simpa using hq
+    obtain ⟨n, h1, h2⟩ := scan_stream c da hA cfg.drift (effMax m) (persistedPos cfg s) (cfg.drift + 2)
+      (persistedPos cfg s) (popQueue (effMax m) s.queue 0 0).size (popQueue (effMax m) s.queue 0 0).ts
+    refine ⟨n, ?_, h2⟩
+    rw [hq'] at hp ⊢
+    simp only [flat, List.flatMap_nil, List.append_nil, List.nil_append] at hp ⊢
+    rw [List.append_assoc, h1, hp]
+  · refine ⟨0, ?_, rfl⟩
+    simp [pushedItems, stream, hp]
+
+theorem gnb_resp (cfg : Cfg) (da : Nat → Fetch) (s : St) (m : Nat) :
+    (getNextBatch cfg da s { max := m }).resp =
+      if ((popQueue (effMax m) s.queue 0 0).taken ++ (callScan cfg da s m).taken).isEmpty then .nil
+      else .batch ((popQueue (effMax m) s.queue 0 0).taken ++ (callScan cfg da s m).taken) (callScan cfg da s m).ts := by
+  simp only [getNextBatch, Bool.not_true, Bool.false_eq_true, if_false, List.getLast?_nil, callScan]
+  rfl
+
+/-- while un-popped carry-over remains the scan is not entered -/
+theorem callScan_skip (cfg : Cfg) (da : Nat → Fetch) (s : St) (m : Nat)
+    (h : (popQueue (effMax m) s.queue 0 0).queue ≠ []) :
+    (callScan cfg da s m).taken = [] ∧ (callScan cfg da s m).pushed = none ∧
+      (callScan cfg da s m).next = persistedPos cfg s := by
+  unfold callScan scanQ
+  have : ¬ (popQueue (effMax m) s.queue 0 0).queue.isEmpty = true := by simpa using h
+  simp [this]
+
+theorem effMax_pos (m : Nat) : 0 < effMax m := by
+  unfold effMax defaultMax; split <;> omega
+
+/-- **the carry-over head**: if it fits the limit it is the first tx of the batch; if it is larger
+than the limit the call releases nothing and stays put (carry-over content and scan position
+unchanged) -/
+theorem call_head (cfg : Cfg) (da : Nat → Fetch) (s : St) (m : Nat) (y : Item) (ys : List Item)
+    (hq : flat s.queue = y :: ys) :
+    (y.tx.length ≤ effMax m → ∃ rest, (getNextBatch cfg da s { max := m }).resp.items = y :: rest) ∧
+    (effMax m < y.tx.length → (getNextBatch cfg da s { max := m }).resp = .nil ∧
+      flat (getNextBatch cfg da s { max := m }).st.queue = flat s.queue ∧
+      persistedPos cfg (getNextBatch cfg da s { max := m }).st = persistedPos cfg s) := by
+  constructor
+  · intro hy
+    obtain ⟨rest, hr⟩ := popQueue_head_fits (effMax m) s.queue 0 y ys hq hy
+    exact ⟨rest ++ (callScan cfg da s m).taken, by rw [gnb_items, hr]; rfl⟩
+  · intro hy
+    obtain ⟨h1, h2, h3, _⟩ := popQueue_head_blocks (effMax m) s.queue 0 y ys hq hy
+    obtain ⟨g1, g2, g3⟩ := callScan_skip cfg da s m h2
+    refine ⟨?_, ?_, ?_⟩
+    · rw [gnb_resp, h1, g1]; rfl
+    · rw [gnb_queue, flat_pushQ, g2, h3]; simp [pushedItems]
+    · rw [gnb_pos, g3]
+
+/-- whatever the limit: the next tx released after a call that found `y` at the head of the
+carry-over is `y` — either in this batch, or the call releases nothing and keeps `y` at the head -/
+theorem call_first (cfg : Cfg) (da : Nat → Fetch) (s : St) (m : Nat) (y : Item) (ys : List Item)
+    (hq : flat s.queue = y :: ys) :
+    (∃ rest, (getNextBatch cfg da s { max := m }).resp.items = y :: rest) ∨
+    ((getNextBatch cfg da s { max := m }).resp.items = [] ∧
+      flat (getNextBatch cfg da s { max := m }).st.queue = flat s.queue) := by
+  have h := call_head cfg da s m y ys hq
+  by_cases hy : y.tx.length ≤ effMax m
+  · exact .inl (h.1 hy)
+  · have := h.2 (by omega)
+    exact .inr ⟨by rw [this.1]; rfl, this.2.1⟩
+
+/-- with an empty carry-over and a first height that answers, the scan position advances -/
+theorem call_progress_scan (cfg : Cfg) (da : Nat → Fetch) (s : St) (m : Nat) (hq : flat s.queue = [])
+    (hg : da (persistedPos cfg s) ≠ .error ∧ da (persistedPos cfg s) ≠ .future) :
+    persistedPos cfg s + 1 ≤ persistedPos cfg (getNextBatch cfg da s { max := m }).st := by
+  rw [gnb_pos]
+  obtain ⟨_, h2, h3⟩ := popQueue_flat_nil (effMax m) s.queue 0 0 hq
+  unfold callScan scanQ
+  rw [h2, h3]
+  simp only [List.isEmpty_nil, if_true]
+  exact scan_progress cfg.drift da (effMax m) (persistedPos cfg s) (cfg.drift + 1) (persistedPos cfg s) 0 _
+    (effMax_pos m) (by omega) hg
+
+/-- **retrieval errors and heights from the future**: a call never moves the scan position past a
+height whose retrieval failed or which the DA layer has not reached yet -/
+theorem call_stops_at (cfg : Cfg) (da : Nat → Fetch) (s : St) (m h : Nat)
+    (hb : da h = .error ∨ da h = .future) (hn : persistedPos cfg s ≤ h) :
+    persistedPos cfg (getNextBatch cfg da s { max := m }).st ≤ h := by
+  rw [gnb_pos]
+  unfold callScan scanQ
+  split
+  · exact scan_stops_at _ _ _ _ _ _ _ _ h hb hn
+  · exact hn
 
 end Based
